@@ -192,6 +192,61 @@ theorem transaction_ok (o : Oracle) (fuel : Nat) (fls : List Flow) (d : Dir) (h 
     rw [bound_eq]
     exact ⟨this.1, Nat.le_trans this.2 (Nat.le_add_left _ _)⟩
 
+/-! ### the filter tree selects a sub-list of the loaded flows for the response side -/
+
+theorem sumDir_filter_le (d : Dir) (p : Flow → Bool) : ∀ fls : List Flow, sumDir d (fls.filter p) ≤ sumDir d fls
+  | [] => Nat.le_refl _
+  | f :: fls => by
+    have ih := sumDir_filter_le d p fls
+    by_cases hp : p f = true
+    · simp only [List.filter_cons, hp, if_true, sumDir_cons]; omega
+    · simp only [List.filter_cons, hp, Bool.false_eq_true, if_false, sumDir_cons]; omega
+
+theorem Ready.filter {fuel : Nat} {fls : List Flow} (h : Ready fuel fls) (p : Flow → Bool) : Ready fuel (fls.filter p) :=
+  fun g hg => h g (List.mem_filter.mp hg).1
+
+theorem executeReq5_ok (o : Oracle) (fuel : Nat) (fls : List Flow) (p : Flow → Bool) (h : Ready fuel fls) :
+    TOk (bound fls) (executeReq5 fls (fls.filter p) o fuel) := by
+  have ha := runUserReq_ok o fuel fls h
+  rw [bound_eq]
+  unfold executeReq5
+  generalize runUserReq o fuel fls = q at ha
+  obtain ⟨bt, sc, be⟩ := q
+  simp only [] at ha ⊢
+  by_cases hbe : be.isSome = true
+  · simp only [hbe, if_true]
+    exact ⟨ha.1, Nat.le_trans ha.2 (Nat.le_add_right _ _)⟩
+  · simp only [hbe, Bool.false_eq_true, if_false]
+    cases sc with
+    | none => exact ⟨by simp, Nat.le_trans ha.2 (Nat.le_add_right _ _)⟩
+    | some q =>
+      have hr := executeRes_ok o fuel (fls.filter p) (some q) (h.filter p)
+      have hle := sumDir_filter_le .res p fls
+      simp only []
+      refine ⟨hr.1, ?_⟩
+      simp only [steps_append]
+      have h1 := ha.2
+      have h2 := hr.2
+      omega
+
+theorem executeRes_filter_ok (o : Oracle) (fuel : Nat) (fls : List Flow) (p : Flow → Bool)
+    (sc : Option (String × String)) (h : Ready fuel fls) :
+    TOk (sumDir .res fls) (executeRes (selected (fls.filter p)) o fuel sc) := by
+  have hr := executeRes_ok o fuel (fls.filter p) sc (h.filter p)
+  exact ⟨hr.1, Nat.le_trans hr.2 (sumDir_filter_le .res p fls)⟩
+
+theorem runTxn_ok (c : Cfg) (o : Oracle) (fls : List Flow) (d : Dir) (h : Ready (walkFuel fls) fls) :
+    TOk (bound fls) (runTxn c fls o d) := by
+  cases d with
+  | req => exact executeReq5_ok o _ fls _ h
+  | res =>
+    have := executeRes_filter_ok o (walkFuel fls) fls (fun f => (statusOf c f.name).isEmpty ||
+      (match (some 200 : Option Nat) with
+       | some st => (statusOf c f.name).contains st
+       | none => false)) none h
+    rw [bound_eq]
+    exact ⟨this.1, Nat.le_trans this.2 (Nat.le_add_left _ _)⟩
+
 /-! ### what the loader establishes -/
 
 theorem buildFlow_validated {pts : List PType} {rep : FlowRep} {f : Flow} (h : buildFlow pts rep = .ok f) :
